@@ -276,6 +276,11 @@ func (rv *PostingsList) read(postingsOffset uint64, d *Dictionary) error {
 		return rv.init1Hit(postingsOffset)
 	}
 
+	// "general" encoding: a list that is read again (the dictionary
+	// iterator reuses one) must not keep the 1-hit state of its last use
+	rv.docNum1Hit = 0
+	rv.normBits1Hit = 0
+
 	// read the location of the freq/norm details
 	var n uint64
 	var read int
